@@ -241,6 +241,8 @@ class Queue(Greenlet):
         self.active_ids = set()
         self.queued_ids = set()
         self.queued_lock = Semaphore(1)
+        self._enqueuing = 0
+        self._announced = []
         self.queue_policies = []
         self._use_pool('store_pool', store_pool)
         self._use_pool('relay_pool', relay_pool)
@@ -318,6 +320,15 @@ class Queue(Greenlet):
             self.queued_ids.add(id)
             self.wake.set()
 
+    def _add_announced(self, entry):
+        # A message that enqueue() has written but not yet marked active may
+        # already be listed or announced by the storage: such entries are
+        # looked at once enqueue() is done with its bookkeeping.
+        if self._enqueuing:
+            self._announced.append(entry)
+        else:
+            self._add_queued(entry)
+
     def enqueue(self, envelope):
         """Drops a new message in the queue for delivery. The first delivery
         attempt is made immediately (depending on relay pool availability).
@@ -331,21 +342,29 @@ class Queue(Greenlet):
         """
         now = time.time()
         envelopes = self._run_policies(envelope)
-        ids = self._pool_imap('store', self.store.write, envelopes,
-                              repeat(now))
-        results = list(zip(envelopes, ids))
-        for env, id in results:
-            if not isinstance(id, BaseException):
-                if self.relay and id not in self.active_ids:
-                    self.active_ids.add(id)
-                    self._pool_spawn('relay', self._attempt, id, env, 0)
-            elif not isinstance(id, QueueError):
-                raise id  # Re-raise exceptions that are not QueueError.
+        self._enqueuing += 1
+        try:
+            ids = self._pool_imap('store', self.store.write, envelopes,
+                                  repeat(now))
+            results = list(zip(envelopes, ids))
+            for env, id in results:
+                if not isinstance(id, BaseException):
+                    if self.relay and id not in self.active_ids:
+                        self.active_ids.add(id)
+                        self._pool_spawn('relay', self._attempt, id, env, 0)
+                elif not isinstance(id, QueueError):
+                    raise id  # Re-raise exceptions that are not QueueError.
+        finally:
+            self._enqueuing -= 1
+            if not self._enqueuing:
+                announced, self._announced = self._announced, []
+                for entry in announced:
+                    self._add_queued(entry)
         return results
 
     def _load_all(self):
         for entry in self.store.load():
-            self._add_queued(entry)
+            self._add_announced(entry)
 
     def _remove(self, id):
         self._pool_spawn('store', self._remove_stored, id)
@@ -482,7 +501,7 @@ class Queue(Greenlet):
         while True:
             try:
                 for entry in self.store.wait():
-                    self._add_queued(entry)
+                    self._add_announced(entry)
             except NotImplementedError:
                 return
 
